@@ -43,6 +43,7 @@ def run(project, rep):
     rep.run(F.f_r2_init, schema, rep)
     rep.run(Z.z_r4_conversion, project, rep, utc_label=True)
     rep.run(Z.z_r5_offset_sign, project, rep)
+    rep.run(Z.z_r5b_sign_of_zero_hours, project, rep)
     rep.run(Z.z_r6_carrier_date, project, rep)
     rep.run(Z.z_r1_grammar, project, rep)
     from .. import rules_header as H
